@@ -782,7 +782,9 @@ example : ∀ p ∈ [("A".toList, "1".toList), ("LANG".toList, "C.UTF-8".toList)
 /-! ### outside `ValidValue`: what the printed paragraph re-reads to
 
 `Binary::set_description(v)` on the paragraph `Package: p`; printed text, errors of the reader and
-the fields read back (the same results on the real code: audit run and corpus/C15/more.req). -/
+the fields read back.  The real code gives the same results (worker run of these requests: the
+oracle's re-parse clause reports `a\nb`, `x`, `a\nb`, `a`, "does not re-parse"); they are outside
+the generated domain, so they are not corpus lines. -/
 
 /-- the children of the first paragraph of a text -/
 def firstParaKids (text : Str) : List DNode :=
@@ -851,5 +853,539 @@ theorem C15_reread_empty_value_witness :
     ∧ rereadErrors [] = some 0
     ∧ rereadItems [] = some [[("Package".toList, "p".toList), ("Description".toList, [])]]
     ∧ ¬ Spec.ValidValue [] := by decide +kernel
+
+/-! ### re-read through an external type; methods with a field-name parameter -/
+
+theorem vchar_line {c : Char} (h : Rel.isVChar c = true) : isNewline c = false ∧ isIndent c = false := by
+  refine ⟨?_, ?_⟩
+  · cases hn : isNewline c with
+    | false => rfl
+    | true =>
+      simp only [isNewline, Bool.or_eq_true, beq_iff_eq] at hn
+      rcases hn with rfl | rfl <;> revert h <;> decide
+  · cases hn : isIndent c with
+    | false => rfl
+    | true =>
+      simp only [isIndent, Bool.or_eq_true, beq_iff_eq] at hn
+      rcases hn with rfl | rfl <;> revert h <;> decide
+
+/-- the printed form of every version `Version::from_str` returns is a `ValidValue` -/
+theorem validValue_version (raw : Str) (v : Rel.Version) (hv : Rel.Version.parse raw = some v) :
+    Spec.ValidValue v.display := by
+  obtain ⟨hne, hall⟩ := Rel.Version.parse_vtext (Rel.Version.parse_display_stable hv)
+  apply validValue_oneLine
+  refine ⟨hne, fun c hc => (vchar_line (hall c hc)).1, fun c hc => ?_⟩
+  have hm : c ∈ v.display := by
+    cases hl : v.display with
+    | nil => rw [hl] at hc; cases hc
+    | cons y ys => rw [hl] at hc; simp only [List.head?_cons, Option.some.injEq] at hc; subst hc; simp
+  exact (vchar_line (hall c hm)).2
+
+/-- **set_version(v), print, parse, version()**: on a well-formed paragraph, for every version `v`
+    that `Version::from_str` returns, the printed paragraph re-reads without error and `version()`
+    on the paragraph read back is `v`; every other field reads as before -/
+theorem C15_version_set_reread (g : Row) (hg : g ∈ Gen.Accessors.rows) (hk : g.kind = .get)
+    (hsh : g.shape = .typed "Version".toList) (s : Row) (hs : setterOf g = some s)
+    (p : Spec.ParaS) (hpw : p.WF) (ht : p.Term false)
+    (raw : Str) (v : Rel.Version) (hv : Rel.Version.parse raw = some v) :
+    ∃ k cs', k ∈ s.names ∧ setSem s (.text v.display) p.node.children = some cs'
+      ∧ ∃ d : Spec.DocS, d.WF ∧ d.str = textList cs' ∧ Deb.parse (textList cs') = ⟨d.tree, []⟩
+        ∧ readStrict (textList cs') = .ok d.tree
+        ∧ ∃ q : Spec.ParaS, paragraphs d.tree = [q.node]
+          ∧ extGet versionCodec g q.node.children = .value v
+          ∧ (∀ k', k' ≠ k → Deb.get q.node k' = Deb.get p.node k') := by
+  have hx : isExtShape g.shape = true := by rw [hsh]; decide
+  have key : ∀ r ∈ Gen.Accessors.rows, r.kind = .get → r.shape = .typed "Version".toList →
+      r.isOpaque = false ∧ ∀ s, setterOf r = some s → isBad s = false ∧ unmodelledShape s = false
+        ∧ ∀ n ∈ s.names, isTemplate n = false := by
+    decide +kernel
+  obtain ⟨ho, hset⟩ := key g hg hk hsh
+  obtain ⟨hb, hu, hnt⟩ := hset s hs
+  obtain ⟨hss, hop⟩ := ext_row_facts g hg hk hx s hs
+  have hp := C15_table_pairs' g hg hk ho s hs hb hu
+  have hsrow : s ∈ Gen.Accessors.rows := by
+    have := List.mem_of_find?_eq_some hs
+    exact this
+  have hkeys : ∀ n ∈ s.names, Spec.ValidKey n := fun n hn => C15_table_names_valid s hsrow n hn (hnt n hn)
+  have hw : writeText s.shape (firstOf p.node.children s.names) (.text v.display) = some v.display := by
+    rw [hss, hsh]; rfl
+  obtain ⟨k, cs', m1, m2, d, d1, d2, d3, d4, q, q1, _, q3, _, q5⟩ :=
+    C15_set_reread g s hp hkeys p hpw ht (.text v.display) true (by simp [clears]) v.display hw
+      (validValue_version raw v hv)
+  refine ⟨k, cs', m1, m2, d, d1, d2, d3, d4, q, q1, ?_, q5⟩
+  rw [(extGet_refines versionCodec g hx hop _ _ q3).2]
+  have e : versionCodec.parse v.display = some v := Rel.Version.parse_display_stable hv
+  rw [e]
+
+example : C04.exPara.WF ∧ C04.exPara.Term false
+    ∧ Rel.Version.parse "1.0-1".toList = some ⟨none, "1.0".toList, some "1".toList⟩ := by
+  refine ⟨by decide, by decide, by decide +kernel⟩
+
+/-- **`Package::set_tags(tag, l)`, print, parse, `tags(tag)`** for every valid field name `tag` and
+    every list in the domain of the comma codec (non-empty, elements trimmed, free of `,` and of
+    CR / LF, the first one non-empty): the printed paragraph re-reads without error and `tags(tag)`
+    on the paragraph read back is `l`.  (For a `tag` that is not a field name — empty, with a
+    blank, a colon, … — the printed paragraph does not read back: audit W6.) -/
+theorem C15_tags_set_reread (tag : Str) (hkey : Spec.ValidKey tag) (p : Spec.ParaS) (hpw : p.WF) (ht : p.Term false)
+    (x : Str) (xs : List Str) (a : Bool) (hx : OneLine x) (hxs : ∀ y ∈ xs, Spec.NoNl y)
+    (hc : ∀ y ∈ x :: xs, ',' ∉ y) (htr : ∀ y ∈ x :: xs, trim y = y) :
+    ∃ cs', setSem ((rowOf "apt.Package" "set_tags").inst tag) (.list (x :: xs)) p.node.children = some cs'
+      ∧ ∃ d : Spec.DocS, d.WF ∧ d.str = textList cs' ∧ Deb.parse (textList cs') = ⟨d.tree, []⟩
+        ∧ ∃ q : Spec.ParaS, paragraphs d.tree = [q.node]
+          ∧ getSem ((rowOf "apt.Package" "tags").inst tag) a q.node.children = .list (x :: xs)
+          ∧ (∀ k', k' ≠ tag → Deb.get q.node k' = Deb.get p.node k') := by
+  obtain ⟨_, _, hp, hgn, hsn, _⟩ := C15_tags_pair tag
+  have hgs : ((rowOf "apt.Package" "tags").inst tag).shape = .list .comma true .str := by
+    show (rowOf "apt.Package" "tags").shape = _; decide +kernel
+  have hss : ((rowOf "apt.Package" "set_tags").inst tag).shape = .list .comma false .str := by
+    show (rowOf "apt.Package" "set_tags").shape = _; decide +kernel
+  have hst : ((rowOf "apt.Package" "tags").inst tag).strict = false := by
+    show (rowOf "apt.Package" "tags").strict = _; decide +kernel
+  have hopt : ((rowOf "apt.Package" "set_tags").inst tag).optional = false := by
+    show (rowOf "apt.Package" "set_tags").optional = _; decide +kernel
+  have hkeys : ∀ n ∈ ((rowOf "apt.Package" "set_tags").inst tag).names, Spec.ValidKey n := by
+    intro n hn; rw [hsn] at hn; simp only [List.mem_singleton] at hn; subst hn; exact hkey
+  have hw : writeText ((rowOf "apt.Package" "set_tags").inst tag).shape
+      (firstOf p.node.children ((rowOf "apt.Package" "set_tags").inst tag).names) (.list (x :: xs))
+        = some (join (sepText .comma) (x :: xs)) := by
+    rw [hss]; rfl
+  obtain ⟨k, cs', m1, m2, d, d1, d2, d3, _, q, q1, _, _, q4, q5⟩ :=
+    C15_set_reread _ _ hp hkeys p hpw ht (.list (x :: xs)) a (by simp [clears]) _ hw
+      (validValue_list_oneLine .comma (Or.inl rfl) x xs hx hxs)
+  have hk : k = tag := by rw [hsn] at m1; simpa using m1
+  subst hk
+  refine ⟨cs', m2, d, d1, d2, d3, q, q1, ?_, q5⟩
+  rw [q4, hgs, hst]
+  have := C15_codec_list_comma (x :: xs) false (by simp) hc htr false a
+  simpa [encode] using this
+
+example : Spec.ValidKey "Tag".toList ∧ OneLine "role::program".toList
+    ∧ (∀ y ∈ ["uitoolkit::gtk".toList], Spec.NoNl y)
+    ∧ (∀ y ∈ ["role::program".toList, "uitoolkit::gtk".toList], ',' ∉ y ∧ trim y = y) := by decide +kernel
+
+/-! ## 6 — `Header::fix` when a `Format-Specification` field is present -/
+
+theorem count_set_other (l : C15.Items) (k v k' : Str) (h : k' ≠ k) :
+    count (ListSpec.set l k v) k' = count l k' := by
+  induction l with
+  | nil => simp [ListSpec.set, count, h.symm]
+  | cons f fs ih =>
+    simp only [ListSpec.set]
+    split
+    · rename_i hf
+      have : f.1 ≠ k' := by rw [hf]; exact h.symm
+      simp [count_cons, h.symm, this]
+    · simp [count_cons, ih]
+
+theorem count_rename (l : C15.Items) (k k' : Str) (hne : k ≠ k') (hp : lget l k ≠ none) :
+    count (ListSpec.rename l k k') k' = count l k' + 1
+    ∧ count (ListSpec.rename l k k') k + 1 = count l k
+    ∧ ∀ j, j ≠ k → j ≠ k' → count (ListSpec.rename l k k') j = count l j := by
+  induction l with
+  | nil => simp [lget] at hp
+  | cons f fs ih =>
+    simp only [ListSpec.rename]
+    split
+    · rename_i hf
+      have h1 : f.1 ≠ k' := by rw [hf]; exact hne
+      refine ⟨?_, ?_, ?_⟩
+      · simp only [count_cons, ↓reduceIte, h1]; omega
+      · simp only [count_cons, hf, ↓reduceIte, hne.symm]; omega
+      · intro j hj hj'
+        have : f.1 ≠ j := by rw [hf]; exact hj.symm
+        simp only [count_cons, this, ↓reduceIte, hj'.symm]
+    · rename_i hf
+      have hp' : lget fs k ≠ none := by
+        rw [lget_cons] at hp
+        simpa [hf] using hp
+      obtain ⟨i1, i2, i3⟩ := ih hp'
+      refine ⟨?_, ?_, ?_⟩
+      · simp only [count_cons, i1]; omega
+      · simp only [count_cons, hf, ↓reduceIte]; omega
+      · intro j hj hj'
+        simp only [count_cons, i3 j hj hj']
+
+/-- **`Header::fix` with a `Format-Specification` field**: the first such field is renamed to
+    `Format`, then the first `Format` field is normalised — so afterwards there is ONE MORE `Format`
+    field than before and one `Format-Specification` field less.  On the file `fix` was written for
+    (old name only) that is one `Format` field; with both names present there are two or more -/
+theorem C15_fix_both (cs : List DNode) (hS : pget cs fFormatSpec ≠ none) :
+    count (pitems (fixSem cs)) fFormat = count (pitems cs) fFormat + 1
+    ∧ count (pitems (fixSem cs)) fFormatSpec + 1 = count (pitems cs) fFormatSpec
+    ∧ (pget cs fFormat ≠ none → 2 ≤ count (pitems (fixSem cs)) fFormat) := by
+  have hne : fFormatSpec ≠ fFormat := by decide
+  have hS' : lget (pitems cs) fFormatSpec ≠ none := by rw [← C15_refine_get]; exact hS
+  obtain ⟨r1, r2, _⟩ := count_rename (pitems cs) fFormatSpec fFormat hne hS'
+  have hsome : (pget cs fFormatSpec).isSome = true := by
+    cases h : pget cs fFormatSpec with
+    | none => exact absurd h hS
+    | some _ => rfl
+  have hren := (C04_refine_rename cs fFormatSpec fFormat).1
+  have key : count (pitems (fixSem cs)) fFormat = count (pitems cs) fFormat + 1
+      ∧ count (pitems (fixSem cs)) fFormatSpec + 1 = count (pitems cs) fFormatSpec := by
+    unfold fixSem
+    simp only [hsome, ↓reduceIte]
+    cases hf : pget (paraRename cs fFormatSpec fFormat).1 fFormat with
+    | none =>
+      -- impossible: the renamed field is a Format field
+      have : count (pitems (paraRename cs fFormatSpec fFormat).1) fFormat = 0 := by
+        rw [count_zero_iff, ← C15_refine_get]; exact hf
+      rw [hren, r1] at this
+      omega
+    | some f =>
+      simp only
+      rw [C04_refine_set, hren]
+      refine ⟨?_, ?_⟩
+      · rw [count_set, r1]; simp
+      · rw [count_set_other _ _ _ _ hne, r2]
+  refine ⟨key.1, key.2, fun hF => ?_⟩
+  have : count (pitems cs) fFormat ≠ 0 := by
+    rw [Ne, count_zero_iff, ← C15_refine_get]; exact hF
+  omega
+
+/-- the text of the first paragraph of `text` after `Header::fix` -/
+def fixText (text : Str) : Str := textList (fixSem (firstParaKids text))
+
+/-- the actual results on files `Copyright::from_str` accepts (it wants the text to start with
+    `Format:`); model = real code, requests in corpus/C15/more.req.  Both names present: two `Format`
+    fields, the second not normalised; two old-name fields: one is left behind; the old name after
+    other fields or after a comment: renamed in place -/
+theorem C15_fix_both_witness :
+    fixText "Format: http://a/b\nFormat-Specification: http://c/d\nSource: s\n".toList
+      = "Format: https://a/b/\nFormat: http://c/d\nSource: s\n".toList
+    ∧ fixText "Format: x\nFormat-Specification: a\nFormat-Specification: b\n".toList
+      = "Format: x/\nFormat: a\nFormat-Specification: b\n".toList
+    ∧ fixText "Format: x\nSource: s\nFormat-Specification: a\n".toList
+      = "Format: x/\nSource: s\nFormat: a\n".toList
+    ∧ fixText "Format: a\n# c\nFormat-Specification: b\n".toList
+      = "Format: a/\n# c\nFormat: b\n".toList := by
+  decide +kernel
+
+/-- the case the rename branch was written for — a header with the old name only — at paragraph
+    level: one normalised `Format` field.  (Not reachable through `Copyright::from_str`, which
+    answers `NotMachineReadable` for a text that does not start with `Format:`.) -/
+theorem C15_fix_old_name_only :
+    fixText "Format-Specification: http://www.debian.org/doc/packaging-manuals/copyright-format/1.0\nSource: s\n".toList
+      = "Format: https://www.debian.org/doc/packaging-manuals/copyright-format/1.0/\nSource: s\n".toList := by
+  decide +kernel
+
+example : pget (firstParaKids "Format: http://a/b\nFormat-Specification: http://c/d\nSource: s\n".toList) fFormatSpec ≠ none
+    ∧ pget (firstParaKids "Format: http://a/b\nFormat-Specification: http://c/d\nSource: s\n".toList) fFormat ≠ none := by
+  decide +kernel
+
+/-! ## 8 — field names are compared byte for byte -/
+
+def lowerName (k : Str) : Str := k.map Char.toLower
+
+/-- **a field present under another letter case is another field**: with `k` absent and a field
+    `k'` (equal to `k` up to letter case, e.g. `maintainer` for `Maintainer`) present, the setter
+    appends a field `k` and leaves `k'` alone — afterwards the paragraph has two fields of one
+    Debian (case-insensitive) name.  By design of the lossless library; recorded as an observation -/
+theorem C15_case_variant_duplicates (cs : List DNode) (k k' old v : Str) (hne : k' ≠ k)
+    (hcase : lowerName k' = lowerName k) (hk : pget cs k = none) (hold : (k', old) ∈ pitems cs) :
+    pitems (paraSet cs k v) = pitems cs ++ [(k, v)]
+    ∧ pget (paraSet cs k v) k = some v ∧ pget (paraSet cs k v) k' = pget cs k'
+    ∧ 2 ≤ ((pitems (paraSet cs k v)).filter fun f => lowerName f.1 == lowerName k).length := by
+  have h1 : pitems (paraSet cs k v) = pitems cs ++ [(k, v)] := by
+    rw [← (C15_insert_absent cs k v hk).2, C04_refine_insert]; rfl
+  refine ⟨h1, C15_set_get cs k v, (C15_set_frame cs k v).1 k' hne, ?_⟩
+  rw [h1, List.filter_append]
+  have a : 1 ≤ ((pitems cs).filter fun f => lowerName f.1 == lowerName k).length := by
+    apply List.length_pos_of_mem (a := (k', old))
+    simp [hold, hcase]
+  simp only [List.length_append, List.filter_cons, List.filter_nil, beq_self_eq_true, ↓reduceIte, List.length_cons,
+    List.length_nil]
+  omega
+
+/-- the paragraph text after a setter / the getter's answer, on the first paragraph of `text` -/
+def afterSetter (view method : String) (v : Val) (text : Str) : Option Str :=
+  (setSem (rowOf view method) v (firstParaKids text)).map textList
+
+/-- actual results: `set_maintainer("new")` on `maintainer: old` appends a second field (and
+    `maintainer()` then answers `new`); `set_section(None)` removes `Section` and leaves `section`;
+    `Control::source()` / `binaries()` do not find `source:` / `package:` paragraphs -/
+theorem C15_case_variant_witness :
+    afterSetter "control.Source" "set_maintainer" (.text "new".toList) "Source: a\nmaintainer: old\n".toList
+      = some "Source: a\nmaintainer: old\nMaintainer: new\n".toList
+    ∧ (setSem (rowOf "control.Source" "set_maintainer") (.text "new".toList)
+          (firstParaKids "Source: a\nmaintainer: old\n".toList)).map
+        (getSem (rowOf "control.Source" "maintainer") false) = some (.text "new".toList)
+    ∧ afterSetter "control.Source" "set_section" .absent "Source: a\nSection: x\nsection: z\n".toList
+      = some "Source: a\nsection: z\n".toList
+    ∧ findPara (Deb.parse "source: a\n\npackage: b\n".toList).tree "Source".toList = none
+    ∧ filterPara (Deb.parse "source: a\n\npackage: b\n".toList).tree "Package".toList = [] := by
+  decide +kernel
+
+example : lowerName "maintainer".toList = lowerName "Maintainer".toList
+    ∧ pget (firstParaKids "Source: a\nmaintainer: old\n".toList) "Maintainer".toList = none
+    ∧ ("maintainer".toList, "old".toList) ∈ pitems (firstParaKids "Source: a\nmaintainer: old\n".toList) := by
+  decide +kernel
+
+/-! ## 4 — the Debian field name of every accessor, from the specifications
+
+`C15_table_names` compares each literal with `docName`, which for most rows is a function of the
+METHOD name (`build_depends` ↦ `Build-Depends`): a literal misspelt the way the method name suggests
+(`Reviewed-By`, `No-Support-For-Architecture-All`: F-C15-18/19) passes.  `debianNames` is written by
+hand from the specifications named per view, one entry per accessor (getter and `set_` share one),
+without looking at the method-name rule.  A template `{tag}` / `Bug-{vendor}` stands for the
+parameter of the method (`tags(tag)`, DEP-3 `Bug-<Vendor>`). -/
+
+def debianNames : List ((Str × Str) × List Str) := [
+  -- control.Control: Debian Policy 5.2 / 5.6.1, 5.6.7 (debian/control: the source paragraph has Source, binary paragraphs have Package)
+  (("control.Control".toList, "source".toList), ["Source".toList]),
+  (("control.Control".toList, "binaries".toList), ["Package".toList]),
+  (("control.Control".toList, "add_source".toList), ["Source".toList]),
+  (("control.Control".toList, "add_binary".toList), ["Package".toList]),
+  -- control.Source: Debian Policy 5.2 (source package control: general paragraph), 5.6.1-5.6.26, 5.6.31 (Rules-Requires-Root), 5.6.30 (Testsuite); Vcs-Svk: developers-reference 6.2.5 (historical)
+  (("control.Source".toList, "name".toList), ["Source".toList]),
+  (("control.Source".toList, "section".toList), ["Section".toList]),
+  (("control.Source".toList, "priority".toList), ["Priority".toList]),
+  (("control.Source".toList, "maintainer".toList), ["Maintainer".toList]),
+  (("control.Source".toList, "build_depends".toList), ["Build-Depends".toList]),
+  (("control.Source".toList, "build_depends_indep".toList), ["Build-Depends-Indep".toList]),
+  (("control.Source".toList, "build_depends_arch".toList), ["Build-Depends-Arch".toList]),
+  (("control.Source".toList, "build_conflicts".toList), ["Build-Conflicts".toList]),
+  (("control.Source".toList, "build_conflicts_indep".toList), ["Build-Conflicts-Indep".toList]),
+  (("control.Source".toList, "build_conflicts_arch".toList), ["Build-Conflicts-Arch".toList]),
+  (("control.Source".toList, "standards_version".toList), ["Standards-Version".toList]),
+  (("control.Source".toList, "homepage".toList), ["Homepage".toList]),
+  (("control.Source".toList, "vcs_git".toList), ["Vcs-Git".toList]),
+  (("control.Source".toList, "vcs_svn".toList), ["Vcs-Svn".toList]),
+  (("control.Source".toList, "vcs_bzr".toList), ["Vcs-Bzr".toList]),
+  (("control.Source".toList, "vcs_arch".toList), ["Vcs-Arch".toList]),
+  (("control.Source".toList, "vcs_svk".toList), ["Vcs-Svk".toList]),
+  (("control.Source".toList, "vcs_darcs".toList), ["Vcs-Darcs".toList]),
+  (("control.Source".toList, "vcs_mtn".toList), ["Vcs-Mtn".toList]),
+  (("control.Source".toList, "vcs_cvs".toList), ["Vcs-Cvs".toList]),
+  (("control.Source".toList, "vcs_hg".toList), ["Vcs-Hg".toList]),
+  (("control.Source".toList, "vcs_browser".toList), ["Vcs-Browser".toList]),
+  (("control.Source".toList, "uploaders".toList), ["Uploaders".toList]),
+  (("control.Source".toList, "architecture".toList), ["Architecture".toList]),
+  (("control.Source".toList, "rules_requires_root".toList), ["Rules-Requires-Root".toList]),
+  (("control.Source".toList, "testsuite".toList), ["Testsuite".toList]),
+  -- control.Binary: Debian Policy 5.2 (binary package paragraphs), 5.6.7-5.6.13, 7.1 (relationship fields), 7.8 (Built-Using), Multi-Arch: wiki.debian.org/Multiarch/Implementation
+  (("control.Binary".toList, "name".toList), ["Package".toList]),
+  (("control.Binary".toList, "section".toList), ["Section".toList]),
+  (("control.Binary".toList, "priority".toList), ["Priority".toList]),
+  (("control.Binary".toList, "architecture".toList), ["Architecture".toList]),
+  (("control.Binary".toList, "depends".toList), ["Depends".toList]),
+  (("control.Binary".toList, "recommends".toList), ["Recommends".toList]),
+  (("control.Binary".toList, "suggests".toList), ["Suggests".toList]),
+  (("control.Binary".toList, "enhances".toList), ["Enhances".toList]),
+  (("control.Binary".toList, "pre_depends".toList), ["Pre-Depends".toList]),
+  (("control.Binary".toList, "breaks".toList), ["Breaks".toList]),
+  (("control.Binary".toList, "conflicts".toList), ["Conflicts".toList]),
+  (("control.Binary".toList, "replaces".toList), ["Replaces".toList]),
+  (("control.Binary".toList, "provides".toList), ["Provides".toList]),
+  (("control.Binary".toList, "built_using".toList), ["Built-Using".toList]),
+  (("control.Binary".toList, "multi_arch".toList), ["Multi-Arch".toList]),
+  (("control.Binary".toList, "essential".toList), ["Essential".toList]),
+  (("control.Binary".toList, "description".toList), ["Description".toList]),
+  (("control.Binary".toList, "homepage".toList), ["Homepage".toList]),
+  -- apt.Source: Debian repository format, "Sources" indices (the .dsc fields of Policy 5.4 with Source renamed Package, plus Directory, Priority, Section)
+  (("apt.Source".toList, "package".toList), ["Package".toList]),
+  (("apt.Source".toList, "version".toList), ["Version".toList]),
+  (("apt.Source".toList, "maintainer".toList), ["Maintainer".toList]),
+  (("apt.Source".toList, "uploaders".toList), ["Uploaders".toList]),
+  (("apt.Source".toList, "standards_version".toList), ["Standards-Version".toList]),
+  (("apt.Source".toList, "format".toList), ["Format".toList]),
+  (("apt.Source".toList, "vcs_browser".toList), ["Vcs-Browser".toList]),
+  (("apt.Source".toList, "vcs_git".toList), ["Vcs-Git".toList]),
+  (("apt.Source".toList, "vcs_svn".toList), ["Vcs-Svn".toList]),
+  (("apt.Source".toList, "vcs_hg".toList), ["Vcs-Hg".toList]),
+  (("apt.Source".toList, "vcs_bzr".toList), ["Vcs-Bzr".toList]),
+  (("apt.Source".toList, "vcs_arch".toList), ["Vcs-Arch".toList]),
+  (("apt.Source".toList, "vcs_svk".toList), ["Vcs-Svk".toList]),
+  (("apt.Source".toList, "vcs_darcs".toList), ["Vcs-Darcs".toList]),
+  (("apt.Source".toList, "vcs_mtn".toList), ["Vcs-Mtn".toList]),
+  (("apt.Source".toList, "vcs_cvs".toList), ["Vcs-Cvs".toList]),
+  (("apt.Source".toList, "build_depends".toList), ["Build-Depends".toList]),
+  (("apt.Source".toList, "build_depends_indep".toList), ["Build-Depends-Indep".toList]),
+  (("apt.Source".toList, "build_depends_arch".toList), ["Build-Depends-Arch".toList]),
+  (("apt.Source".toList, "build_conflicts".toList), ["Build-Conflicts".toList]),
+  (("apt.Source".toList, "build_conflicts_indep".toList), ["Build-Conflicts-Indep".toList]),
+  (("apt.Source".toList, "build_conflicts_arch".toList), ["Build-Conflicts-Arch".toList]),
+  (("apt.Source".toList, "binary".toList), ["Binary".toList]),
+  (("apt.Source".toList, "homepage".toList), ["Homepage".toList]),
+  (("apt.Source".toList, "section".toList), ["Section".toList]),
+  (("apt.Source".toList, "priority".toList), ["Priority".toList]),
+  (("apt.Source".toList, "architecture".toList), ["Architecture".toList]),
+  (("apt.Source".toList, "directory".toList), ["Directory".toList]),
+  (("apt.Source".toList, "testsuite".toList), ["Testsuite".toList]),
+  (("apt.Source".toList, "files".toList), ["Files".toList]),
+  (("apt.Source".toList, "checksums_sha1".toList), ["Checksums-Sha1".toList]),
+  (("apt.Source".toList, "checksums_sha256".toList), ["Checksums-Sha256".toList]),
+  (("apt.Source".toList, "checksums_sha512".toList), ["Checksums-Sha512".toList]),
+  -- apt.Package: Debian repository format, "Packages" indices (binary control fields of Policy 5.3 plus Filename, Size, MD5sum, SHA1, SHA256, Description-md5; Tag: debtags)
+  (("apt.Package".toList, "name".toList), ["Package".toList]),
+  (("apt.Package".toList, "version".toList), ["Version".toList]),
+  (("apt.Package".toList, "installed_size".toList), ["Installed-Size".toList]),
+  (("apt.Package".toList, "maintainer".toList), ["Maintainer".toList]),
+  (("apt.Package".toList, "architecture".toList), ["Architecture".toList]),
+  (("apt.Package".toList, "depends".toList), ["Depends".toList]),
+  (("apt.Package".toList, "recommends".toList), ["Recommends".toList]),
+  (("apt.Package".toList, "suggests".toList), ["Suggests".toList]),
+  (("apt.Package".toList, "enhances".toList), ["Enhances".toList]),
+  (("apt.Package".toList, "pre_depends".toList), ["Pre-Depends".toList]),
+  (("apt.Package".toList, "breaks".toList), ["Breaks".toList]),
+  (("apt.Package".toList, "conflicts".toList), ["Conflicts".toList]),
+  (("apt.Package".toList, "replaces".toList), ["Replaces".toList]),
+  (("apt.Package".toList, "provides".toList), ["Provides".toList]),
+  (("apt.Package".toList, "section".toList), ["Section".toList]),
+  (("apt.Package".toList, "priority".toList), ["Priority".toList]),
+  (("apt.Package".toList, "description".toList), ["Description".toList]),
+  (("apt.Package".toList, "homepage".toList), ["Homepage".toList]),
+  (("apt.Package".toList, "source".toList), ["Source".toList]),
+  (("apt.Package".toList, "description_md5".toList), ["Description-md5".toList]),
+  (("apt.Package".toList, "tags".toList), ["{tag}".toList]),
+  (("apt.Package".toList, "filename".toList), ["Filename".toList]),
+  (("apt.Package".toList, "size".toList), ["Size".toList]),
+  (("apt.Package".toList, "md5sum".toList), ["MD5sum".toList]),
+  (("apt.Package".toList, "sha256".toList), ["SHA256".toList]),
+  (("apt.Package".toList, "multi_arch".toList), ["Multi-Arch".toList]),
+  -- apt.Release: Debian repository format, "Release" files: Origin Label Suite Codename Version Date Valid-Until NotAutomatic ButAutomaticUpgrades Acquire-By-Hash No-Support-for-Architecture-all Architectures Components Description MD5Sum SHA1 SHA256 SHA512 Signed-By Changelogs Snapshots
+  (("apt.Release".toList, "origin".toList), ["Origin".toList]),
+  (("apt.Release".toList, "label".toList), ["Label".toList]),
+  (("apt.Release".toList, "suite".toList), ["Suite".toList]),
+  (("apt.Release".toList, "codename".toList), ["Codename".toList]),
+  (("apt.Release".toList, "changelogs".toList), ["Changelogs".toList]),
+  (("apt.Release".toList, "date".toList), ["Date".toList]),
+  (("apt.Release".toList, "valid_until".toList), ["Valid-Until".toList]),
+  (("apt.Release".toList, "acquire_by_hash".toList), ["Acquire-By-Hash".toList]),
+  (("apt.Release".toList, "no_support_for_architecture_all".toList), ["No-Support-for-Architecture-all".toList]),
+  (("apt.Release".toList, "architectures".toList), ["Architectures".toList]),
+  (("apt.Release".toList, "components".toList), ["Components".toList]),
+  (("apt.Release".toList, "description".toList), ["Description".toList]),
+  (("apt.Release".toList, "checksums_md5".toList), ["MD5Sum".toList]),
+  (("apt.Release".toList, "checksums_sha1".toList), ["SHA1".toList]),
+  (("apt.Release".toList, "checksums_sha256".toList), ["SHA256".toList]),
+  (("apt.Release".toList, "checksums_sha512".toList), ["SHA512".toList]),
+  -- changes.Changes: deb-changes(5), Policy 5.5: Format Date Source Binary Architecture Version Distribution Urgency Maintainer Changed-By Description Closes Changes Checksums-Sha1 Checksums-Sha256 Files
+  (("changes.Changes".toList, "format".toList), ["Format".toList]),
+  (("changes.Changes".toList, "source".toList), ["Source".toList]),
+  (("changes.Changes".toList, "binary".toList), ["Binary".toList]),
+  (("changes.Changes".toList, "architecture".toList), ["Architecture".toList]),
+  (("changes.Changes".toList, "version".toList), ["Version".toList]),
+  (("changes.Changes".toList, "distribution".toList), ["Distribution".toList]),
+  (("changes.Changes".toList, "urgency".toList), ["Urgency".toList]),
+  (("changes.Changes".toList, "maintainer".toList), ["Maintainer".toList]),
+  (("changes.Changes".toList, "changed_by".toList), ["Changed-By".toList]),
+  (("changes.Changes".toList, "description".toList), ["Description".toList]),
+  (("changes.Changes".toList, "checksums_sha1".toList), ["Checksums-Sha1".toList]),
+  (("changes.Changes".toList, "checksums_sha256".toList), ["Checksums-Sha256".toList]),
+  (("changes.Changes".toList, "files".toList), ["Files".toList]),
+  -- buildinfo.Buildinfo: deb-buildinfo(5): Format Source Binary Architecture Version Binary-Only-Changes Checksums-Md5 Checksums-Sha1 Checksums-Sha256 Build-Origin Build-Architecture Build-Date Build-Kernel-Version Build-Path Build-Tainted-By Installed-Build-Depends Environment
+  (("buildinfo.Buildinfo".toList, "source".toList), ["Source".toList]),
+  (("buildinfo.Buildinfo".toList, "binaries".toList), ["Binary".toList]),
+  (("buildinfo.Buildinfo".toList, "version".toList), ["Version".toList]),
+  (("buildinfo.Buildinfo".toList, "build_architecture".toList), ["Build-Architecture".toList]),
+  (("buildinfo.Buildinfo".toList, "architecture".toList), ["Architecture".toList]),
+  (("buildinfo.Buildinfo".toList, "checksums_sha256".toList), ["Checksums-Sha256".toList]),
+  (("buildinfo.Buildinfo".toList, "checksums_sha1".toList), ["Checksums-Sha1".toList]),
+  (("buildinfo.Buildinfo".toList, "checksums_md5".toList), ["Checksums-Md5".toList]),
+  (("buildinfo.Buildinfo".toList, "build_origin".toList), ["Build-Origin".toList]),
+  (("buildinfo.Buildinfo".toList, "build_date".toList), ["Build-Date".toList]),
+  (("buildinfo.Buildinfo".toList, "build_tainted_by".toList), ["Build-Tainted-By".toList]),
+  (("buildinfo.Buildinfo".toList, "format".toList), ["Format".toList]),
+  (("buildinfo.Buildinfo".toList, "build_path".toList), ["Build-Path".toList]),
+  (("buildinfo.Buildinfo".toList, "environment".toList), ["Environment".toList]),
+  (("buildinfo.Buildinfo".toList, "installed_build_depends".toList), ["Installed-Build-Depends".toList]),
+  -- copyright.Copyright: DEP-5 (copyright-format 1.0): a Files paragraph has a Files field, a stand-alone License paragraph has License and no Files
+  (("copyright.Copyright".toList, "iter_files".toList), ["Files".toList]),
+  (("copyright.Copyright".toList, "iter_licenses".toList), ["License".toList]),
+  -- copyright.Header: DEP-5 header paragraph: Format Upstream-Name Upstream-Contact Source Disclaimer Comment License Copyright; Format-Specification: name of Format in the drafts before 1.0; Files-Excluded: uscan(1)
+  (("copyright.Header".toList, "format_string".toList), ["Format".toList, "Format-Specification".toList]),
+  (("copyright.Header".toList, "upstream_name".toList), ["Upstream-Name".toList]),
+  (("copyright.Header".toList, "upstream_contact".toList), ["Upstream-Contact".toList]),
+  (("copyright.Header".toList, "source".toList), ["Source".toList]),
+  (("copyright.Header".toList, "files_excluded".toList), ["Files-Excluded".toList]),
+  (("copyright.Header".toList, "fix".toList), ["Format".toList, "Format-Specification".toList]),
+  -- copyright.FilesParagraph: DEP-5 Files paragraph: Files Copyright License Comment
+  (("copyright.FilesParagraph".toList, "files".toList), ["Files".toList]),
+  (("copyright.FilesParagraph".toList, "copyright".toList), ["Copyright".toList]),
+  (("copyright.FilesParagraph".toList, "comment".toList), ["Comment".toList]),
+  (("copyright.FilesParagraph".toList, "license".toList), ["License".toList]),
+  -- copyright.LicenseParagraph: DEP-5 stand-alone License paragraph: License Comment
+  (("copyright.LicenseParagraph".toList, "comment".toList), ["Comment".toList]),
+  (("copyright.LicenseParagraph".toList, "name".toList), ["License".toList]),
+  (("copyright.LicenseParagraph".toList, "text".toList), ["License".toList]),
+  -- dep3.PatchHeader: DEP-3: Description|Subject Origin Bug Bug-<Vendor> Forwarded Author|From Reviewed-by|Acked-by Last-Update Applied-Upstream
+  (("dep3.PatchHeader".toList, "origin".toList), ["Origin".toList]),
+  (("dep3.PatchHeader".toList, "forwarded".toList), ["Forwarded".toList]),
+  (("dep3.PatchHeader".toList, "author".toList), ["Author".toList, "From".toList]),
+  (("dep3.PatchHeader".toList, "reviewed_by".toList), ["Reviewed-by".toList]),
+  (("dep3.PatchHeader".toList, "last_update".toList), ["Last-Update".toList]),
+  (("dep3.PatchHeader".toList, "applied_upstream".toList), ["Applied-Upstream".toList]),
+  (("dep3.PatchHeader".toList, "upstream_bug".toList), ["Bug".toList]),
+  (("dep3.PatchHeader".toList, "vendor_bug".toList), ["Bug-{vendor}".toList]),
+  (("dep3.PatchHeader".toList, "description".toList), ["Description".toList, "Subject".toList]),
+  (("dep3.PatchHeader".toList, "long_description".toList), ["Description".toList, "Subject".toList])
+]
+
+
+def debianLookup (view method : Str) : Option (List Str) :=
+  (debianNames.find? fun e => e.1 == (view, baseName method)).map (·.2)
+
+/-- the literals of a row are exactly the names the table gives for its accessor; a row may be
+    missing from the table only if it touches no field by name -/
+def debianOk (r : Row) : Bool :=
+  match debianLookup r.view r.method with
+  | some d => r.names.all d.contains && d.all r.names.contains
+  | none => r.names.isEmpty
+
+/-- accessors whose literal differs from the specification's spelling (each with a witness theorem
+    and an entry in known_findings.json).  Empty since the repairs of F-C15-18 and F-C15-19. -/
+def knownMisnamed : List (Str × Str) := []
+
+/-- **every field-name literal of every accessor row is the Debian name of the specification** -/
+theorem C15_table_debian_names :
+    ∀ r ∈ Gen.Accessors.rows, knownMisnamed.contains (r.view, baseName r.method) = false → debianOk r = true := by
+  decide +kernel
+
+/-- the table has one entry per accessor and no stale entry: keys are pairwise different and each
+    is the accessor of some row -/
+theorem C15_debian_names_exact :
+    (debianNames.map (·.1)).Nodup
+    ∧ ∀ e ∈ debianNames, (Gen.Accessors.rows.any fun r => r.view == e.1.1 && baseName r.method == e.1.2) = true := by
+  refine ⟨by decide +kernel, by decide +kernel⟩
+
+/-- the two tables agree: for every row, the names `docNames` gives (rule + exceptions) are the
+    names of `debianNames` — so the 290 rule-derived names of `C15_table_names` are now each
+    confirmed by a hand-written entry -/
+theorem C15_debian_names_agree_doc :
+    ∀ r ∈ Gen.Accessors.rows, r.names.isEmpty = false →
+      ∃ d, debianLookup r.view r.method = some d
+        ∧ (docNames r.view r.method).all d.contains = true ∧ d.all (docNames r.view r.method).contains = true := by
+  decide +kernel
+
+/-- the check is live: the two literals the real code had before the repairs fail it (the rule-based
+    `docName` of that time accepted both) -/
+theorem C15_debian_names_catches :
+    (∀ r, findRow "apt.Release".toList "no_support_for_architecture_all".toList = some r →
+      debianOk { r with names := ["No-Support-For-Architecture-All".toList] } = false
+      ∧ ruleName r.method = "No-Support-For-Architecture-All".toList)
+    ∧ (∀ r, findRow "dep3.PatchHeader".toList "reviewed_by".toList = some r →
+      debianOk { r with names := ["Reviewed-By".toList] } = false
+      ∧ ruleName r.method = "Reviewed-By".toList) := by
+  refine ⟨fun r h => ?_, fun r h => ?_⟩
+  · have : r = rowOf "apt.Release" "no_support_for_architecture_all" := by
+      have e : findRow "apt.Release".toList "no_support_for_architecture_all".toList
+          = some (rowOf "apt.Release" "no_support_for_architecture_all") := by decide +kernel
+      rw [e] at h; exact (Option.some.inj h).symm
+    subst this
+    decide +kernel
+  · have : r = rowOf "dep3.PatchHeader" "reviewed_by" := by
+      have e : findRow "dep3.PatchHeader".toList "reviewed_by".toList
+          = some (rowOf "dep3.PatchHeader" "reviewed_by") := by decide +kernel
+      rw [e] at h; exact (Option.some.inj h).symm
+    subst this
+    decide +kernel
+
+/-- candidate (reported, not in the name table's scope): the repository format defines ONE value
+    for `No-Support-for-Architecture-all`, `Packages`; the getter compares the field text with `yes`,
+    so on the field of a real Release file it answers `false` -/
+theorem C15_release_nsaa_packages :
+    (findRow "apt.Release".toList "no_support_for_architecture_all".toList).map (·.shape) = some .flagYes
+    ∧ decode .flagYes false false "Packages".toList = .flag false := by decide +kernel
 
 end Deb822Verif.Props.C15More
